@@ -179,11 +179,18 @@ func (rw *RepoWalker) handleSubmodule(p string, id *plumbing.Hash, branch string
 		return err
 	}
 	for k, repo := range sw.Files {
-		rw.Files[fileKey{
+		key := fileKey{
 			SubRepoPath: filepath.Join(p, k.SubRepoPath),
 			Path:        k.Path,
 			ID:          k.ID,
-		}] = repo
+		}
+		// The same submodule file is reached once per branch of the super
+		// project: keep the branches collected so far.
+		if existing, ok := rw.Files[key]; ok {
+			existing.Branches = append(existing.Branches, repo.Branches...)
+			repo = existing
+		}
+		rw.Files[key] = repo
 	}
 	for k, v := range subVersions {
 		subRepoVersions[filepath.Join(p, k)] = v
